@@ -32,7 +32,7 @@ STUB = ['dsim/vsim parser + elaborator as the judge of legality']
 ASSUMPTIONS = ['legality = the elaboration rules listed in dsim/vsim/README.md (declared once, not reserved, defined once, '
                'interfaces match, one driver per net bit); debatable rules are lenient']
 _KF = known_findings()
-PROBES = ['shared_created_structures', 'system_as_top', 'built_around_another_system', 'text_elaborated', 'reserved_name', 'gen_crash', 'regen_other', 'child_module', 'created_structures'] + [
+PROBES = ['refused_then_repaired_shared_list', 'shared_created_structures', 'system_as_top', 'built_around_another_system', 'text_elaborated', 'reserved_name', 'gen_crash', 'regen_other', 'child_module', 'created_structures'] + [
     p for p, tok in (('prefix_collision', 'prefix-collision-w'), ('clk_port', 'port-named-clk'), ('inst_port_collision', 'port-vs-instance-name'))
     if not _KF.excluded(tok)]      # naming faults of open findings are kept out of the campaign (their reproducers are replayed instead)
 
@@ -129,7 +129,11 @@ def gen(rs, tier, index):
             calls.append({'c': 'regen_other', 'top': 'hw' if fr.random() < 0.4 else 'dut'})
         else:
             calls.append({'c': 'gen_crash'})
-    if not any(c['c'] in ('hier', 'hier_created', 'child', 'hier_hw', 'shared_created') for c in calls):
+        if fr.random() < 0.08:
+            # a project flow with one shared createdStructures list in which the first generation of a sub-design is refused
+            # (a port left unconnected), the caller repairs the design and generates again
+            calls.append({'c': 'created_repair', 'pick': fr.randrange(1 << 20), 'pick2': fr.randrange(1 << 20)})
+    if not any(c['c'] in ('hier', 'hier_created', 'child', 'hier_hw', 'shared_created', 'created_repair') for c in calls):
         calls.append({'c': 'hier', 'fresh': True})
     order = list(d['order'])
     rng.shuffle(order)
@@ -267,7 +271,30 @@ def run(scn, log, st):
         g = py4hw.VerilogGenerator(b.dut) if call.get('fresh') else gen_obj
         try:
             with quiet():
-                if c == 'shared_created':
+                if c == 'created_repair':
+                    cands = [o for o in seams.walk(b.dut) if o is not b.dut and o.parent is b.dut and not g.isInlinable(o) and not o.isPrimitive()
+                             and any(ch.inPorts and ch.inPorts[0].wire is not None for ch in o.children.values())]
+                    if not cands:
+                        continue
+                    o1 = cands[call['pick'] % len(cands)]
+                    vict = [ch for ch in o1.children.values() if ch.inPorts and ch.inPorts[0].wire is not None]
+                    port = vict[call['pick2'] % len(vict)].inPorts[0]
+                    shared = []
+                    saved, port.wire = port.wire, None
+                    try:
+                        py4hw.VerilogGenerator(o1).getVerilogForHierarchy(noInstanceNumberInTopEntity=False, createdStructures=shared)
+                        refused_first = False
+                    except Exception:
+                        refused_first = True
+                    port.wire = saved
+                    if not refused_first:
+                        continue
+                    text = py4hw.VerilogGenerator(o1).getVerilogForHierarchy(noInstanceNumberInTopEntity=False, createdStructures=shared)
+                    text += '\n' + py4hw.VerilogGenerator(b.dut).getVerilogForHierarchy(createdStructures=shared)
+                    top, bb, what = 'Dut', (), 'sub-design and design generated with one createdStructures list after a refused first attempt'
+                    st.probe('refused_then_repaired_shared_list')
+                    st.fault('gen_crash')
+                elif c == 'shared_created':
                     # the documented use of createdStructures: several generations (here for two sub-blocks) share one list so
                     # that common modules are emitted once; the concatenated text must be one consistent design
                     cands = [o for o in seams.walk(b.dut) if o is not b.dut and o.parent is b.dut and not g.isInlinable(o)]
